@@ -77,6 +77,19 @@ struct C16 : Prop {
 		} else if (kind == "silent") { st.set("mode", "pointer"); st.set("flush_ms", flush_ms); st.set("config", 0); st.set("silent_bus", true); }
 		else if (kind == "serial_fail") { st.set("mode", "serial"); st.set("flush_ms", flush_ms); st.set("config", 0); st.set("openable", false); }
 		else if (kind == "badcfg") { st.set("mode", "pointer"); st.set("flush_ms", flush_ms); st.set("config", 1); }
+		else if (kind == "late_magic") { st.set("mode", "pointer"); st.set("flush_ms", flush_ms); st.set("config", 0); st.set("magic_delay_ms", (int) r.range(300, 1200)); }   // the interface answers the probe too late: the start fails
+		else if (kind == "silent_after_late") { st.set("mode", "pointer"); st.set("flush_ms", flush_ms); st.set("config", 0); st.set("silent_bus", true); st.set("keep_pending", true); }
+		// the node table changes while it is being read (an unconfigured leaf logs out and in again): the enumeration is aborted and restarted
+		if ((kind == "normal" || kind == "serial_ok") && !for_compare && r.chance(300)) {
+			std::vector<const cfg::Unknown *> leafs; for (auto &u : w.unknown) if (!u.addr.empty() && !(u.uid[0] & 0x80)) leafs.push_back(&u);
+			if (!leafs.empty()) {
+				const cfg::Unknown *u = leafs[r.below(leafs.size())];
+				J sev = J::arr(); int t0 = (int) r.range(2240000, 2500000);
+				J e1 = J::obj(); e1.set("at_us", t0); e1.set("topo", "lost"); e1.set("node", pc::jaddr(u->addr)); sev.push(e1);
+				J e2 = J::obj(); e2.set("at_us", t0 + (int) r.range(500, 150000)); e2.set("topo", "new"); e2.set("node", pc::jaddr(u->addr)); sev.push(e2);
+				se.set("start_bus", sev);
+			}
+		}
 		se.set("start", st); se.set("phases", phs); se.set("stop", true);
 		if (!for_compare) { if (r.chance(250)) se.set("stop_again", true); if (r.chance(250) && (kind == "normal" || kind == "debug")) { se.set("start_again", true); se.set("start_again_variant", (int) r.range(1, 5)); } }
 		return se;
@@ -101,9 +114,12 @@ struct C16 : Prop {
 		static const char *kinds[] = {"debug", "normal", "normal", "serial_ok", "silent", "serial_fail", "badcfg"};
 		int n = (int) r.range(2, thorough ? 5 : 4);
 		J ss = J::arr();
-		std::string last_kind;
+		std::string last_kind, last_gen;
 		for (int i = 0; i < n; i++) {
 			std::string k = kinds[r.below(7)];
+			if (last_gen == "late_magic") k = "silent_after_late";      // the late answer is still on the line when the next session probes a now silent interface
+			else if (i < n - 2 && r.chance(120)) k = "late_magic";
+			last_gen = k;
 			if (i == n - 1) { if (k != "debug" && k != "normal" && k != "serial_ok") k = r.coin() ? "debug" : "normal"; last_kind = k; }
 			ss.push(gen_session(r, k, w, i == n - 1));
 		}
@@ -136,7 +152,7 @@ struct C16 : Prop {
 	void on_session_start(Engine &e, int s, int ret) override {
 		const J &se = e.plan["sessions"][(size_t) s];
 		std::string kind = se.gets("kind");
-		int expect = (kind == "silent" || kind == "serial_fail" || kind == "badcfg") ? 1 : 0;
+		int expect = (kind == "silent" || kind == "serial_fail" || kind == "badcfg" || kind == "late_magic" || kind == "silent_after_late") ? 1 : 0;
 		if (ret != expect)
 			e.violate("START_RETURN", kind, "start of a '" + kind + "' session returned " + std::to_string(ret) + ", expected " + std::to_string(expect));
 		if (ret != 0) {
